@@ -126,7 +126,9 @@ def _regen_crctable(ctx):
 # Go → Lean translation of the CURRENT bodies of selected functions of REPO (translators/go2lean, notes/go2lean.md):
 # one regeneration step per unit, `go2lean:<unit>` → lean/FitModel/Generated/Go_<unit>.lean. A construct outside the
 # translator's subset is a broken tie (kind `tool`): the unit's file is replaced by a stub that does not compile.
-GO2LEAN_UNITS = ('crc16', 'basetype', 'proto', 'decoder', 'decoderbits', 'encoder')
+GO2LEAN_UNITS = ('crc16', 'basetype', 'proto', 'decoder', 'decoderbits', 'encoder',
+                 # units of translators/go2lean/targets_*.go (one file per unit)
+                 'encoderlru', 'protomarshal', 'readbuffer', 'rawsize', 'kitint', 'decodersize')
 
 def _go2lean_step(unit):
     def step(ctx):
